@@ -22,6 +22,8 @@ REPO = os.environ.get("HIERARC_REPO", "/repo")
 if REPO not in sys.path:
     sys.path.insert(0, REPO)
 os.environ.setdefault("PYTHONHASHSEED", "0")
+for _v in ("OMP_NUM_THREADS", "OPENBLAS_NUM_THREADS", "MKL_NUM_THREADS"):
+    os.environ.setdefault(_v, "1")
 warnings.simplefilter("ignore")
 
 import numpy as np  # noqa: E402
@@ -79,6 +81,7 @@ class Recorder(object):
         self.errors = []
         self._vkeys = {}
         self.t0 = time.time()
+        self.cpu0 = time.process_time()   # budgets are in CPU seconds so that a loaded machine does not shrink the exploration
 
     # --- bookkeeping -------------------------------------------------------------------
     def case(self, descr, nontrivial=True, kind=None):
